@@ -1,0 +1,12 @@
+//go:build verif
+
+package mathx
+
+// Contracts for the deductive verifier in /verif (govc). Comment-only file: adds no code.
+
+// AroundDuration stays within +/- deviation of the base (truncation to whole nanoseconds included).
+//@ func (Unstable).AroundDuration
+//@   prop C06, C17
+//@   requires u.r != nil && u.lock != nil && 0.0 <= u.deviation && u.deviation <= 1.0 && base >= 0 && base < 4000000000000000000
+//@   ensures [within-deviation] real(result) <= (1.0 + u.deviation) * real(base) && real(result) > (1.0 - u.deviation) * real(base) - 1.0
+//@   ensures [unlocks] calls("lock") == 1 && calls("unlock") == 1
